@@ -55,6 +55,14 @@ class Gen:
         """env: list of (name, type) of scalar variables readable here."""
         r = self.rng
         vars_t = [x for x, ty in env if ty == t]
+        if self.level >= 2 and depth > 0 and r.random() < 0.12:
+            arrs = [(x, ty) for x, ty in env if isinstance(ty, tuple) and ty[0] == "arr" and ty[2] == t and ty[1] > 0]
+            if arrs:
+                a, ty = r.choice(arrs)
+                return ("idx", ("var", a), ("lit", "usize", r.randrange(ty[1])))
+            if t == "usize":
+                arrs = [(x, ty) for x, ty in env if isinstance(ty, tuple) and ty[0] == "arr"]
+                if arrs: return ("len", ("var", r.choice(arrs)[0]))
         if depth <= 0 or r.random() < 0.25:
             if vars_t and r.random() < 0.65: return ("var", r.choice(vars_t))
             return self.lit(t)
@@ -108,7 +116,7 @@ class Gen:
 
     def cmp(self, env, depth):
         r = self.rng
-        types = sorted({ty for _, ty in env if ty in PRIMS}) or ["i32"]
+        types = sorted({ty for _, ty in env if isinstance(ty, str) and ty in PRIMS}) or ["i32"]
         t = r.choice(types + ["i32", "u8"])
         op = r.choice(["==", "!=", "<", "<=", ">", ">="]) if t != "bool" or True else "=="
         return ("cmp", op, self.expr(t, env, depth), self.expr(t, env, depth), t)
@@ -122,6 +130,9 @@ class Gen:
         end_label = None
         for _ in range(n):
             k = r.random()
+            if self.level >= 2 and r.random() < 0.25:
+                out += self.mem_stmts(env)
+                continue
             if k < 0.22:
                 t = r.choice(PRIMS)
                 x = self.fresh("v")
@@ -178,8 +189,9 @@ class Gen:
         r = self.rng
         items = []
         for _ in range(r.randint(1, 3)):
-            if env and r.random() < 0.7:
-                x, t = r.choice(env)
+            senv = [e for e in env if isinstance(e[1], str)]
+            if senv and r.random() < 0.7:
+                x, t = r.choice(senv)
                 items.append(("var", x) if r.random() < 0.7 else self.expr(t, env, 1))
                 items[-1] = (items[-1], t)
             else:
@@ -188,6 +200,96 @@ class Gen:
             items.append(("str", r.choice([b" ", b",", b"|", b";"])))
         items.append(("str", b"\n"))
         return ("print", items)
+
+    # ---- arrays, views, pointers (level >= 2) -------------------------------------
+    def library(self):
+        """helper functions exercising every parameter kind: view []T, slice pointer &[]T,
+        pointer &T; each with a real loop over |x|"""
+        r = self.rng
+        self.lib = []
+        for t in r.sample([x for x in INTS if x != "usize"], 2) + (["usize"] if r.random() < 0.3 else []):
+            n = self.fresh("L")
+            i, acc, done = "i" + n, "acc" + n, "done" + n
+            # fn sum(x: []T) -> T : acc = acc op x[i]
+            op = r.choice(["+", "^", "+", "-"]) if t in BITFIELD else r.choice(["+", "-"])
+            body = [("decl", acc, t, ("lit", t, r.choice([0, 1, 3]))), ("decl", i, "usize", ("lit", "usize", 0)),
+                    ("block", [("if", ("cmp", "==", ("var", i), ("len", ("var", "x")), "usize"), ("goto", done), None),
+                               ("assign", ("var", acc), ("bin", op, ("var", acc), ("idx", ("var", "x"), ("var", i)))),
+                               ("assign", ("var", i), ("bin", "+", ("var", i), ("lit", "usize", 1))), ("loop",)]),
+                    ("label", done)]
+            self.funcs.append(["sum" + n, [("x", ("view", t))], t, body, ("var", acc), True]); self.lib.append(("sum", "sum" + n, t))
+            # fn fill(p: &[]T, v: T) : p[i] = v + (i as T)
+            j, done2 = "j" + n, "fin" + n
+            body = [("decl", j, "usize", ("lit", "usize", 0)),
+                    ("block", [("if", ("cmp", ">=", ("var", j), ("len", ("var", "p")), "usize"), ("goto", done2), None),
+                               ("assign", ("idx", ("var", "p"), ("var", j)), ("bin", "+", ("var", "v"), ("cast", t, ("var", j), "usize")) if t != "usize" else ("bin", "+", ("var", "v"), ("var", j))),
+                               ("assign", ("var", j), ("bin", "+", ("var", j), ("lit", "usize", 1))), ("loop",)]),
+                    ("label", done2)]
+            self.funcs.append(["fill" + n, [("p", ("ptr", ("view", t))), ("v", t)], None, body, None, True]); self.lib.append(("fill", "fill" + n, t))
+            # fn bump(q: &T) : q = q * 3 + 1
+            self.funcs.append(["bump" + n, [("q", ("ptr", t))], None,
+                               [("assign", ("var", "q"), ("bin", "+", ("bin", "*", ("var", "q"), ("lit", t, 3)), ("lit", t, 1)))], None, True]); self.lib.append(("bump", "bump" + n, t))
+            # fn len(x: []T) -> usize, fn plen(p: &[]T) -> usize
+            self.funcs.append(["len" + n, [("x", ("view", t))], "usize", [], ("len", ("var", "x")), True]); self.lib.append(("len", "len" + n, t))
+            self.funcs.append(["plen" + n, [("p", ("ptr", ("view", t)))], "usize", [], ("len", ("var", "p")), True]); self.lib.append(("plen", "plen" + n, t))
+
+    def mem_stmts(self, env):
+        """a short sequence using arrays / pointers; env gets the new bindings"""
+        r = self.rng
+        out = []
+        k = r.random()
+        arrays = [(x, ty) for x, ty in env if isinstance(ty, tuple) and ty[0] == "arr" and isinstance(ty[2], str)]
+        prims = [(x, ty) for x, ty in env if isinstance(ty, str) and x.startswith("v")]
+        lib_t = sorted({t for _, _, t in getattr(self, "lib", [])})
+        if k < 0.3 or not arrays:
+            t = r.choice(lib_t) if lib_t and r.random() < 0.8 else r.choice(INTS)
+            n = r.randint(0, 5)
+            x = self.fresh("a")
+            out.append(("decl", x, ("arr", n, t), ("arrlit", [self.lit(t) for _ in range(n)])))
+            env.append((x, ("arr", n, t)))
+            out.append(("print", [(("len", ("var", x)), "usize"), ("str", b"\n")]))
+            return out
+        a, (_, n, t) = r.choice(arrays)
+        if k < 0.45 and n > 0:
+            out.append(("assign", ("idx", ("var", a), ("lit", "usize", r.randrange(n))), self.expr(t, [e for e in env if isinstance(e[1], str)], 2)))
+        elif k < 0.6 and n > 0:
+            i = r.randrange(n)
+            out.append(("print", [(("idx", ("var", a), ("lit", "usize", i)), t), ("str", b" "), (("len", ("var", a)), "usize"), ("str", b"\n")]))
+        elif k < 0.9:
+            fs = [f for f in getattr(self, "lib", []) if f[2] == t]
+            if fs:
+                kind, fname, _ = r.choice(fs)
+                if kind == "sum":
+                    out.append(("print", [(("call", fname, [("viewarg", ("var", a))]), t), ("str", b"\n")]))
+                elif kind == "fill":
+                    out.append(("callstmt", fname, [("addr", ("var", a)), self.lit(t)]))
+                    if n > 0: out.append(("print", [(("idx", ("var", a), ("lit", "usize", n - 1)), t), ("str", b"\n")]))
+                elif kind == "bump":
+                    sc = [x for x, ty in prims if ty == t]
+                    if sc:
+                        v = r.choice(sc)
+                        out.append(("callstmt", fname, [("addr", ("var", v))]))
+                        out.append(("print", [(("var", v), t), ("str", b"\n")]))
+                elif kind == "len":
+                    out.append(("print", [(("call", fname, [("viewarg", ("var", a))]), "usize"), ("str", b"\n")]))
+                elif kind == "plen":
+                    out.append(("print", [(("call", fname, [("addr", ("var", a))]), "usize"), ("str", b"\n")]))
+        else:
+            # pointer variable to a scalar: write through it, retarget it
+            cands = [(x, ty) for x, ty in prims if ty in INTS]
+            if len(cands) >= 1:
+                v, t2 = r.choice(cands)
+                pname = self.fresh("ptr")
+                out.append(("decl", pname, ("ptr", t2), ("addr", ("var", v))))
+                out.append(("assign", ("var", pname), self.expr(t2, [e for e in env if isinstance(e[1], str)], 1)))
+                out.append(("print", [(("var", v), t2), ("str", b" "), (("var", pname), t2), ("str", b"\n")]))
+                others = [x for x, ty in cands if ty == t2 and x != v]
+                if others:
+                    w = r.choice(others)
+                    out.append(("assignaddr", pname, ("addr", ("var", w))))
+                    out.append(("assign", ("var", pname), ("bin", "+", ("var", pname), ("lit", t2, 1))))
+                    out.append(("print", [(("var", v), t2), ("str", b" "), (("var", w), t2), ("str", b"\n")]))
+        return out
 
     # ---- functions ---------------------------------------------------------------
     def function(self, name, is_main=False):
@@ -200,17 +302,18 @@ class Gen:
         env = list(params)
         body = self.block(env, 2 if not is_main else 3, r.randint(2, 7) if not is_main else r.randint(4, 12))
         # the result may only use parameters and top-level declarations of the body
-        top = list(params) + [(s[1], s[2]) for s in body if s[0] == "decl"]
+        top = list(params) + [(s[1], s[2]) for s in body if s[0] == "decl" and isinstance(s[2], str)]
         # ... that are not declared after a goto to the final label (E482): the end label is last,
         # so only declarations before the first goto are safe
         safe = list(params)
         for s in body:
-            if s[0] == "decl": safe.append((s[1], s[2]))
+            if s[0] == "decl" and isinstance(s[2], str): safe.append((s[1], s[2]))
             if s[0] == "goto" or (s[0] == "if" and s[2][0] == "goto"): break
         result = self.expr(ret, safe, 2) if ret is not None else None
         self.funcs.append([name, params, ret, body, result, False])
 
     def program(self):
+        if self.level >= 2: self.library()
         nf = self.rng.randint(0, self.max_funcs)
         for i in range(nf):
             self.function("f%d" % i)
